@@ -25,7 +25,7 @@ theorem single_one (now : Int) (spec document nowV : Val) (key v0 : Val) (c : Co
           match applyUpdate spec document nowV false cur with
           | .error e => (c, .error e)
           | .ok new =>
-            if (if c.isOD key then pyEqOrdered new cur else pyEq new cur) then
+            if pyEq new cur then
               match ensureUniques now (c.setDoc key new) new with
               | .error e => (c, .error e)
               | .ok c2 => (c2, .ok (m + 1, u))
@@ -73,7 +73,7 @@ theorem many_cons (now : Int) (spec document nowV : Val) (p : Val × Val) (rest 
         | error e => rfl
         | ok new =>
           dsimp only
-          generalize (if c.isOD key = true then pyEqOrdered new cur else pyEq new cur) = b1
+          generalize pyEq new cur = b1
           cases b1 with
           | true =>
             simp only [if_true]
@@ -114,7 +114,7 @@ theorem single_err_indep (now : Int) (spec document nowV : Val) (p : Val × Val)
         | ok new =>
           rw [ha] at h
           dsimp only at h ⊢
-          generalize (if c.isOD key = true then pyEqOrdered new cur else pyEq new cur) = b1 at h ⊢
+          generalize pyEq new cur = b1 at h ⊢
           cases b1 with
           | true =>
             simp only [if_true] at h ⊢
@@ -212,7 +212,7 @@ theorem single_spec (now : Int) (spec document nowV : Val) (p : Val × Val) (c :
       | ok new =>
         rw [ha] at h
         dsimp only at h
-        generalize (if c.isOD key = true then pyEqOrdered new v0 else pyEq new v0) = b1 at h
+        generalize pyEq new v0 = b1 at h
         cases b1 with
         | true =>
           simp only [if_true] at h
